@@ -121,7 +121,18 @@ def growth_rules(chk, prog, eff, G, label):
                 form, okf = "additive", False
                 det = "capacity grows additively (%s): n insertions would need O(n) reallocations" % DR.fmt_term(newcap)
             else:
-                raise AnalysisBroken("%s: cannot classify the new capacity expression %s" % (name, DR.fmt_term(newcap)))
+                inner_, narrowed_ = newcap, None
+                while isinstance(inner_, tuple) and inner_[0] == "cast":
+                    if inner_[1] == "trunc":
+                        narrowed_ = inner_[2]
+                    inner_ = inner_[3]
+                if narrowed_ is not None:
+                    form, okf = "narrowed", False
+                    det = "the new capacity %s passes through %s on its way to the reallocation: above that type's range the request wraps" % (
+                        DR.fmt_term(inner_), narrowed_)
+                else:
+                    chk.floor("C12.growth", "%s: new capacity expression of a recognised form (%s)" % (name, DR.fmt_term(newcap)), 0, 1)
+                    continue
             forms.add(form)
             chk.ob("C12.growth", "%s %s path %d: new capacity is %s" % (label, name, k, form), okf, R.ins.loc(), fn=name,
                    key="%s:%s:form:%s" % (label, name, form), detail=det)
@@ -492,4 +503,14 @@ def run(ctx, chk):
              "types): no guard, clamp or second opinion between the stored value and the caller (size, capacity and storage of the sequences are what the containers store)")
     import rules as _rg
     _rg.check_field_getters(chk, "C12.getters", prog, eff, names=('cbor_array_size', 'cbor_array_allocated', 'cbor_array_handle', 'cbor_map_size', 'cbor_map_allocated', 'cbor_map_handle'))
+    chk.rule("C12.signed-compare", "no 64-bit comparison in the library is signed: sizes, lengths, counts, indices and remainders are compared as the unsigned "
+             "quantities they are (an out-of-range index is refused whatever its top bit)")
+    import rules as _rsc
+    _rsc.check_signed_compare(chk, "C12.signed-compare", prog)
+    chk.rule("C12.contract", "an insertion that reports success has stored the element in exactly one slot and taken exactly one reference; one that "
+             "reports failure has done neither (a call that answers true without adding anything leaves the list one short; shared with C04.contract)")
+    import ownership as _O12c
+    import rules as _r12c
+    from props.c04 import check_contracts as _cc12
+    _cc12(chk, "C12.contract", prog, eff, _O12c.PathCache(prog, eff), _r12c.item_offsets(prog))
     chk.exhaustive = True
